@@ -118,7 +118,8 @@ fn check_mult(cx: &mut Ctx, n: &[u8; 32], pt: &[u8; 32], sclass: &str, pclass: &
 }
 
 pub fn run(cx: &mut Ctx) {
-    let nrandom = cx.tier.pick(32usize, 20_000, 2_000_000);
+    let only_ni = cx.opt("nightly_forms_only").is_some();
+    let nrandom = if only_ni { 0 } else { cx.tier.pick(32usize, 20_000, 2_000_000) };
     let mut idx = 0u64;
     let specials = special_points();
 
@@ -206,7 +207,7 @@ pub fn run(cx: &mut Ctx) {
     }
 
     // ---------------------------------------------------------------- RFC 7748 iterated vectors
-    if cx.shard == 0 {
+    if cx.shard == 0 && !only_ni {
         let iters: &[(usize, &str)] = match cx.tier {
             crate::ctx::Tier::Tiny => &[(1, "422c8e7a6227d7bca1350b3e2bb7279f7897b87bb6854b783c60e80311ae3079")],
             crate::ctx::Tier::Quick => &[(1, "422c8e7a6227d7bca1350b3e2bb7279f7897b87bb6854b783c60e80311ae3079"), (1000, "684cf59ba83309552800ef566f2f4d3c1c3887c49360e3875f2eb94d99532c51")],
@@ -268,6 +269,21 @@ pub fn run(cx: &mut Ctx) {
             if let Some(p2) = p2 {
                 expect_eq(cx, "C05|KeyPair::precalculate|differs_from_classic", p2.as_slice(), &k, case);
             }
+            #[cfg(feature = "nightly")]
+            {
+                use dryoc::protected::*;
+                if let Some(Ok(p3)) = call(cx, "C05|PrecalcSecretKey::precalculate_locked", "PrecalcSecretKey::precalculate_locked", case, || PrecalcSecretKey::precalculate_locked(&pk, &sk)) {
+                    expect_eq(cx, "C05|PrecalcSecretKey::precalculate_locked|differs_from_classic", p3.as_slice(), &k, case);
+                }
+                if let Some(Ok(p4)) = call(cx, "C05|PrecalcSecretKey::precalculate_readonly_locked", "PrecalcSecretKey::precalculate_readonly_locked", case, || PrecalcSecretKey::precalculate_readonly_locked(&pk, &sk)) {
+                    expect_eq(cx, "C05|PrecalcSecretKey::precalculate_readonly_locked|differs_from_classic", p4.as_slice(), &k, case);
+                }
+                let lkp: KeyPair<Locked<HeapByteArray<32>>, Locked<HeapByteArray<32>>> = KeyPair { public_key: HeapByteArray::<32>::new_locked().unwrap(), secret_key: HeapByteArray::<32>::from_slice_into_locked(&sk).unwrap() };
+                if let Some(Ok(p5)) = call(cx, "C05|KeyPair::precalculate_locked", "KeyPair::precalculate_locked", case, || lkp.precalculate_locked(&pk)) {
+                    expect_eq(cx, "C05|KeyPair::precalculate_locked|differs_from_classic", p5.as_slice(), &k, case);
+                }
+                cx.cover("beforenm", "locked_and_readonly_locked_containers");
+            }
         }
     }
 
@@ -317,6 +333,103 @@ pub fn run(cx: &mut Ctx) {
         }
         cx.cover("kx", "honest");
     }
+    // ---------------------------------------------------- peers chosen so that the shared secret is structured
+    // For a target u-coordinate t of a point P in the prime-order subgroup, the peer key u([k^-1 mod l]P) makes
+    // X25519(k, peer) = t. Targets: shared secrets whose 64-bit words repeat / cancel / are mostly zero — operands
+    // on which a folded or word-wise zero test, or a partial comparison, goes wrong while a bytewise one does not.
+    {
+        use curve25519_dalek::montgomery::MontgomeryPoint;
+        use curve25519_dalek::scalar::Scalar;
+        let nstruct = cx.tier.pick(2usize, 40, 600);
+        for i in 0..nstruct {
+            idx += 1;
+            if !cx.mine(idx) {
+                continue;
+            }
+            let mut rng = cx.rng.fork(idx);
+            let pattern = ["w0=w1,w2=w3", "w0=w2,w1=w3", "all_words_equal", "xor_of_words_zero", "low_half_zero", "high_half_zero", "single_nonzero_word", "first_16_zero"][i % 8];
+            // search the pattern family for a member that is the u-coordinate of a torsion-free curve point
+            let mut found: Option<([u8; 32], curve25519_dalek::edwards::EdwardsPoint)> = None;
+            for _ in 0..400 {
+                let a = rng.u64();
+                let b = rng.u64();
+                let c = rng.u64();
+                let w: [u64; 4] = match pattern {
+                    "w0=w1,w2=w3" => [a, a, b & 0x7fff_ffff_ffff_ffff, b & 0x7fff_ffff_ffff_ffff],
+                    "w0=w2,w1=w3" => [a & 0x7fff_ffff_ffff_ffff, b & 0x7fff_ffff_ffff_ffff, a & 0x7fff_ffff_ffff_ffff, b & 0x7fff_ffff_ffff_ffff],
+                    "all_words_equal" => [a & 0x7fff_ffff_ffff_ffff; 4],
+                    "xor_of_words_zero" => [a, b, c, (a ^ b ^ c)],
+                    "low_half_zero" => [0, 0, a, b & 0x7fff_ffff_ffff_ffff],
+                    "high_half_zero" => [a, b, 0, 0],
+                    "single_nonzero_word" => {
+                        let mut w = [0u64; 4];
+                        w[(a % 4) as usize] = b | 1;
+                        w
+                    }
+                    _ => [0, 0, a, b],
+                };
+                let mut t = [0u8; 32];
+                for (j, x) in w.iter().enumerate() {
+                    t[8 * j..8 * j + 8].copy_from_slice(&x.to_le_bytes());
+                }
+                if t[31] & 0x80 != 0 || t == [0u8; 32] {
+                    if pattern == "xor_of_words_zero" {
+                        t[31] &= 0x7f; // keep the pattern only if it still holds
+                        let chk = (0..4).fold(0u64, |acc, j| acc ^ u64::from_le_bytes(t[8 * j..8 * j + 8].try_into().unwrap()));
+                        if chk != 0 {
+                            continue;
+                        }
+                    } else {
+                        continue;
+                    }
+                }
+                if let Some(p) = MontgomeryPoint(t).to_edwards(0) {
+                    if p.is_torsion_free() && MontgomeryPoint(t).to_bytes() == p.to_montgomery().to_bytes() {
+                        found = Some((t, p));
+                        break;
+                    }
+                }
+            }
+            let Some((target, point)) = found else { continue };
+            let (mypk, mysk) = na::kx_seed_keypair(&rng.arr());
+            let mut clamped = mysk;
+            clamped[0] &= 248;
+            clamped[31] &= 127;
+            clamped[31] |= 64;
+            let k = Scalar::from_bytes_mod_order(clamped);
+            let peer = (k.invert() * point).to_montgomery().to_bytes();
+            // the construction must hold under the reference before dryoc is judged with it
+            let (rc, got) = na::scalarmult(&mysk, &peer);
+            if rc != 0 || got != target {
+                cx.violation("HARNESS|C05|structured_shared_secret_construction_failed", json!({"pattern":pattern}));
+                continue;
+            }
+            cx.key(&format!("structured {} {}", pattern, i));
+            cx.cover("structured_shared_secret", pattern);
+            check_mult(cx, &mysk, &peer, "honest", "structured_shared_secret", i % 4 == 0);
+            for role in ["client", "server"] {
+                let case = || json!({"op":"kx","role":role,"peer":hx(&peer),"shared_secret":hx(&target),"pattern":pattern,"pk":hx(&mypk),"sk":hx(&mysk)});
+                let (mut rx, mut tx) = ([0u8; 32], [0u8; 32]);
+                let (got, want) = if role == "client" {
+                    (call(cx, "C05|crypto_kx_client_session_keys", "crypto_kx_client_session_keys", case, || crypto_kx_client_session_keys(&mut rx, &mut tx, &mypk, &mysk, &peer)), na::kx_client(&mypk, &mysk, &peer))
+                } else {
+                    (call(cx, "C05|crypto_kx_server_session_keys", "crypto_kx_server_session_keys", case, || crypto_kx_server_session_keys(&mut rx, &mut tx, &mypk, &mysk, &peer)), na::kx_server(&mypk, &mysk, &peer))
+                };
+                let (Some(got), Some((wrx, wtx))) = (got, want) else { continue };
+                cx.eval();
+                match got {
+                    Ok(()) => {
+                        expect_eq(cx, &format!("C05|crypto_kx_{}_session_keys|mismatch_vs_libsodium|structured_shared_secret", role), &[rx, tx].concat(), &[wrx, wtx].concat(), case);
+                    }
+                    Err(e) => cx.violation(&format!("C05|crypto_kx_{}_session_keys|refuses_valid_peer|structured_shared_secret", role), json!({"err":e.to_string(),"case":case()})),
+                }
+            }
+            if i == 0 {
+                cx.sample(json!({"family":"structured_shared_secret","pattern":pattern,"peer":hx(&peer),"shared_secret":hx(&target)}));
+            }
+        }
+    }
+
     // kx with every special / low-order / random peer key: decision must equal libsodium's
     for (pn, peer) in specials.iter().cloned().chain((0..cx.tier.pick(4, 200, 5000)).map(|j| (format!("random{}", j), [0u8; 32]))) {
         idx += 1;
